@@ -119,6 +119,28 @@ func init() {
 				cse.TimeoutMS = 90000
 				cs = append(cs, cse)
 			}
+			nlr := 8
+			if tier == "thorough" {
+				nlr = 48
+			}
+			for i := 0; i < nlr; i++ {
+				cse := core.MkCase("C02", "limitrace", i, seed, map[string]int{"trials": 40000, "w": pick(r, 1, 2, 4)})
+				cse.Race = i%4 == 3
+				cse.Procs = pick(r, 2, 4, 16)
+				cse.TimeoutMS = 120000
+				cs = append(cs, cse)
+			}
+			nh := 6
+			if tier == "thorough" {
+				nh = 36
+			}
+			for i := 0; i < nh; i++ {
+				cse := core.MkCase("C02", "hammer", i, seed, map[string]int{"ticks": 60000, "w": pick(r, 16, 32, 64)})
+				cse.Race = i%3 == 2
+				cse.Procs = pick(r, 4, 16)
+				cse.TimeoutMS = 120000
+				cs = append(cs, cse)
+			}
 			np := 4
 			if tier == "thorough" {
 				np = 30
@@ -145,7 +167,7 @@ func init() {
 			}
 			return cs
 		},
-		Kinds:  map[string]core.RunFunc{"script": c02Script, "hook": c02Hook, "stress": c02Stress, "counter": c02Counter, "run": c02Run},
+		Kinds:  map[string]core.RunFunc{"script": c02Script, "hook": c02Hook, "stress": c02Stress, "counter": c02Counter, "run": c02Run, "limitrace": c02LimitRace, "hammer": c02Hammer},
 		Floors: map[string]int64{"script_steps": 500, "steps_superseding": 50, "steps_stop_with_pending": 10, "steps_limit_silent": 10, "hook_schedules_formed": 6, "stress_drops": 1000, "porcupine_histories": 400},
 	})
 }
@@ -843,4 +865,94 @@ func c02Run(c *core.Case, o *core.Outcome) {
 		o.Sig("run:c=%d:body=%s:procs=%d", p.Conc, p.Body, c.Procs)
 	}
 	o.Sample = map[string]any{"case": desc, "requested": sum, "started": su + fa, "dropped": dr}
+}
+
+// c02LimitRace repeats the moment the limit is hit with requests still pending many thousands of
+// times on fresh pools: whatever the order in which the refused worker and the pool's stop path
+// get to run, the leftovers must never be reported as dropped.
+func c02LimitRace(c *core.Case, o *core.Outcome) {
+	var pp map[string]int
+	c.Params(&pp)
+	trials, w := pp["trials"], pp["w"]
+	if c.Race {
+		trials /= 4
+	}
+	var started atomic.Int64
+	env := engine.NewPoolEnv("limitrace", func(t *f1testing.T) f1testing.RunFn {
+		return func(t *f1testing.T) { started.Add(1) }
+	}, 0, nil)
+	r := c.Rng("limitrace")
+	for i := 0; i < trials; i++ {
+		limit := uint64(1 + r.IntN(3))
+		tick := int(limit) + 2 + r.IntN(6)
+		m := workers.New(limit, env.Active)
+		ctx, cancel := context.WithCancel(context.Background())
+		pool := m.NewTriggerPool(w)
+		wctx := pool.Start(ctx)
+		before := started.Load()
+		pool.Trigger(wctx, tick)
+		select {
+		case <-m.WaitForCompletion():
+		case <-time.After(20 * time.Second):
+			cancel()
+			o.Violate("limitrace-hang", "trial %d: pool with limit %d and a tick of %d did not complete within 20 s", i, limit, tick)
+			return
+		}
+		cancel()
+		if d := droppedOf(env); d != 0 {
+			o.Violate("limit-leftover-dropped", "trial %d (workers=%d limit=%d tick=%d): the requests left over when max-iterations was reached were reported as %d dropped iterations; they must be discarded silently", i, w, limit, tick, d)
+			return
+		}
+		if got := started.Load() - before; uint64(got) != limit {
+			o.Violate("limitrace-count", "trial %d: %d iterations started with limit %d and a tick of %d", i, got, limit, tick)
+			return
+		}
+	}
+	o.Events = int64(trials)
+	o.AddObs("limit_race_trials", int64(trials))
+	o.Sig("limitrace:w=%d:procs=%d:race=%v", w, c.Procs, c.Race)
+	o.Sample = map[string]any{"trials": trials, "workers": w}
+}
+
+// c02Hammer: many idle workers, back-to-back ticks of 1-2 requests and instant bodies - the regime in
+// which failed takes by idle workers interleave with the next tick's swap.
+func c02Hammer(c *core.Case, o *core.Outcome) {
+	var pp map[string]int
+	c.Params(&pp)
+	ticks, w := pp["ticks"], pp["w"]
+	if c.Race {
+		ticks /= 4
+	}
+	var started atomic.Int64
+	env := engine.NewPoolEnv("hammer", func(t *f1testing.T) f1testing.RunFn {
+		return func(t *f1testing.T) { started.Add(1) }
+	}, 0, nil)
+	ctx, cancel := context.WithCancel(context.Background())
+	defer cancel()
+	pool := env.Manager.NewTriggerPool(w)
+	wctx := pool.Start(ctx)
+	r := c.Rng("hammer")
+	var requested int64
+	for i := 0; i < ticks; i++ {
+		n := 1 + r.IntN(2)
+		pool.Trigger(wctx, n)
+		requested += int64(n)
+	}
+	cancel()
+	select {
+	case <-env.Manager.WaitForCompletion():
+	case <-time.After(30 * time.Second):
+		o.Violate("hammer-hang", "pool did not complete")
+		return
+	}
+	S, D := started.Load(), int64(droppedOf(env))
+	o.Events = requested
+	if S+D != requested {
+		o.Violate("hammer-conservation", "%d ticks of 1-2 requests to %d mostly idle workers: requested %d, started %d + dropped %d = %d", ticks, w, requested, S, D, S+D)
+		return
+	}
+	o.AddObs("stress_drops", D)
+	o.AddObs("hammer_ticks", int64(ticks))
+	o.Sig("hammer:w=%d:procs=%d:race=%v", w, c.Procs, c.Race)
+	o.Sample = map[string]any{"ticks": ticks, "workers": w, "requested": requested, "started": S, "dropped": D}
 }
